@@ -85,6 +85,7 @@ def main(argv=None):
     pid = a.property
     seed = int(os.environ.get("VERIF_SEED", "0") or 0)
     mod = importlib.import_module(HARNESS[pid])
+    mod.execute = explore.guarded(mod.execute, pid)
     if a.replay:
         return replay(mod, pid, a.replay)
     t0 = time.time()
@@ -102,7 +103,10 @@ def main(argv=None):
     extra = {}
     if hasattr(mod, "post"):
         # optional second phase owned by the harness (e.g. cross-process comparisons)
-        extra = mod.post(a.tier, seed, stats) or {}
+        try:
+            extra = mod.post(a.tier, seed, stats) or {}
+        except Exception as e:  # noqa
+            stats.viol[("%s.noraise" % pid, "unexpected-%s-in-second-phase" % type(e).__name__)] = [1, (-1, [], repr(e)[:300])]
     wall = time.time() - t0
     known = load_known()
     rc = 0
